@@ -194,6 +194,13 @@ def run(chk):
         lines += ["HW " + " ".join(map(str, w)) for w in ws]
         mout = common.run_model(drv, lines)
         cout = common.run_stream(exe, ["t " + tl], ["W 0 " + " ".join(map(str, w)) for w in ws])
+        # the same process, the list WITHOUT its dictionary (a prefix of the list just used): nothing may be marked
+        wline = "W 0 " + " ".join(map(str, ws[0]))
+        nod = common.run_stream(exe, [], ["T " + tl, wline, "T " + str(bt), wline])
+        chk.tally("no_dictionary_after_dictionary_checked")
+        if len(nod) == 4 and not isinstance(nod[3], tuple) and not nod[3].startswith("W 0"):
+            chk.violation("marks-without-dictionary", "lou_hyphenate with a list that has no dictionary returned %s after the same list plus a dictionary had been used"
+                          % nod[3][:80], dict(table_list=str(bt), used_before=tl, word=ws[0], impl=nod[3]))
         for w, m, c in zip(ws, mout, cout):
             nontrivial = True
             mf = m.split()
